@@ -143,13 +143,9 @@ func corrupt(root *core.Node, r *core.Rng) *damage {
 		return &damage{fmt.Sprintf("truncate %s to %d bytes", c.path, cut), c.path, first, data}
 	}
 	pos := r.Intn(used)
-	// Length fields: the implementation allocates the claimed length before it
-	// can notice the damage, so a flip that turns a length into >= 64 KiB costs
-	// gigabytes per read (a resource problem, not a wrong-data problem, and it
-	// would starve the search).  Such flips are moved to the low 16 bits.
-	if hi := lengthFieldHighByte(c.n.Name, data, pos); hi {
-		pos -= 2
-	}
+	// Flips in length fields are included: the reader must not trust a length
+	// before the checksum (an Open that allocates more than the simulated
+	// machine's memory counts as an Open that died, see run.OpenDB).
 	bit := uint(r.Intn(8))
 	nd := append([]byte(nil), data...)
 	nd[pos] ^= 1 << bit
@@ -475,46 +471,6 @@ func init() {
 		Assume: []string{"B+ tree node files (.bptidx, .bpttxid) carry no checksum and are not in the statement: they are not damaged", "one damage at a time",
 			"round trip over field values the public API cannot produce (arbitrary flag/status/structure codes) is a pure function of its input and is not claimed"},
 	})
-}
-
-// lengthFieldHighByte reports whether byte pos of the file is one of the two
-// high bytes of a 32-bit length field of some record.  Records are located
-// with a throw-away parser of the documented layouts; it only steers the
-// fault, it is not an oracle.
-func lengthFieldHighByte(name string, data []byte, pos int) bool {
-	u32 := func(b []byte) int { return int(b[0]) | int(b[1])<<8 | int(b[2])<<16 | int(b[3])<<24 }
-	in := func(rel int, fields ...int) bool {
-		for _, f := range fields {
-			if rel == f+2 || rel == f+3 {
-				return true
-			}
-		}
-		return false
-	}
-	switch {
-	case strings.HasSuffix(name, ".dat"):
-		off := 0
-		for off+42 <= len(data) {
-			ks, vs, bs := u32(data[off+12:]), u32(data[off+16:]), u32(data[off+26:])
-			size := 42 + ks + vs + bs
-			if pos >= off && pos < off+42 {
-				return in(pos-off, 12, 16, 26)
-			}
-			if ks < 0 || vs < 0 || bs < 0 || size <= 42 || off+size > len(data) {
-				return false
-			}
-			off += size
-		}
-	case strings.HasSuffix(name, ".bptridx"):
-		if pos < 28 {
-			return in(pos, 20, 24)
-		}
-	case strings.HasSuffix(name, ".meta"):
-		if pos < 12 {
-			return in(pos, 4, 8)
-		}
-	}
-	return false
 }
 
 // expectedAfterDamage replays the stored records the way a Bitcask-style
